@@ -2,7 +2,7 @@
 # usage: tools_matrix.sh [out-file]   -- runs every seeded change against the quick check of its own property in a scratch
 # worktree of /repo HEAD (EINX_REPO), so that /repo itself is never touched. Prints "<mutant> <property> caught|MISSED".
 HERE="$(cd "$(dirname "$0")" && pwd)"
-out="${1:-/tmp/mut/matrix.txt}"
+out="${1:-/tmp/mut/matrix.txt}"; mkdir -p /tmp/mut "$(dirname "$out")"
 : > "$out"
 for d in "$HERE"/seeded/*/; do
   n=$(basename "$d"); p=${n%%_*}
